@@ -26,6 +26,8 @@ SPEC = {
     "regen": regen,
     "theorems": ["C19_add_exact", "C19_sub_exact", "C19_mul_exact", "C19_div_exact", "C19_shl_exact",
                  "C19_mulU64_exact", "C19_mulI64_exact", "C19_mulDiv64_exact", "C19_all_translated", "C19_exact_spec",
+                 "C19_never_wraps", "C19_never_spurious", "C19_shl_clauses", "C19_mul_twins", "C19_mulDiv64_clauses",
+                 "C19_go_types_covered", "C19_statement_holds", "C19_wrap_spec", "C19_mul64_spec", "C19_div64_spec",
                  "C19_error_identity", "C19_sentinels_distinct", "C19_ierrors_wrappers", "C19_error_sites_cover"],
     "trusted_base": ["translator harness/tools/translate-safemath (go/ast -> Lean, ~450 lines), cross-checked on every run by executing the generated definitions against the real functions",
                      "Go integer semantics Hive/Base/GoInt.lean (wrap-around, truncated division, shifts, &, bits.Mul64/Div64), validated against the raw Go operators exhaustively for 8-bit types and by samples for wider types",
